@@ -15,7 +15,10 @@
 //!   waitc:<n>                                 wait until n requests have completed
 //!   done                                      wait until the channel task has ended (every handle then reports shutdown)
 //!   sleep:<ms>                                let real time pass (only used for "nothing more happens" checks)
-//! output line: <listener log>|<completions c<id>:<class> sorted>|<done|live>|<accepts>|<TIMEOUT at step k, if a wait did not finish>|<ms between consecutive notifications>
+//! output line: <listener log>|<completions c<id>:<class> sorted>|<done|live>|<accepts>|<TIMEOUT at step k, if a wait did not finish>|<ms between consecutive notifications>|<peer view>
+//!   peer view: for every notification the task was HELD at (the callback is the gate): p<n>:<open>:<mode> - how many of the
+//!   connections the peer accepted it still sees open (no EOF / error read yet) while the task sits in that callback, sampled after
+//!   giving the peer up to 100 ms to notice a close (for Connected: to accept), and the mode of the last accepted connection
 use std::collections::HashMap;
 use std::net::SocketAddr;
 use std::sync::{Arc, Mutex};
@@ -34,6 +37,12 @@ struct Shared {
     accepts: usize,
     hold_at: Option<usize>,
     mode: String,
+    /// the notification (1-based) the task is held at right now
+    holding: Option<usize>,
+    /// connections the peer accepted and has not seen closed yet
+    peer_open: usize,
+    last_mode: String,
+    peer_view: Vec<String>,
 }
 
 type Ctl = Arc<Mutex<Shared>>;
@@ -62,6 +71,7 @@ impl Listener<ClientState> for Gate {
             c.stamps.push(std::time::Instant::now());
             if c.hold_at == Some(c.listener.len()) {
                 c.hold_at = None;
+                c.holding = Some(c.listener.len());
                 true
             } else {
                 false
@@ -101,9 +111,21 @@ async fn peer(listener: tokio::net::TcpListener, ctl: Ctl) {
         let mode = {
             let mut c = ctl.lock().unwrap();
             c.accepts += 1;
+            c.peer_open += 1;
+            c.last_mode = c.mode.clone();
             c.mode.clone()
         };
+        let ctl2 = ctl.clone();
         tokio::spawn(async move {
+            // whatever the mode: when this block is left the peer has seen the connection end (EOF / error) or ended it itself
+            struct Closed(Ctl);
+            impl Drop for Closed {
+                fn drop(&mut self) {
+                    let mut c = self.0.lock().unwrap();
+                    c.peer_open = c.peer_open.saturating_sub(1);
+                }
+            }
+            let _closed = Closed(ctl2);
             match mode.as_str() {
                 "close" => drop(sock),
                 "garbage" => {
@@ -253,12 +275,29 @@ async fn run_case(line: &str, case_no: usize) -> String {
                 true
             }
             "go" => {
+                ctl.lock().unwrap().holding = None;
                 release.notify_one();
                 true
             }
             "wait" => {
                 let n: usize = p[1].parse().unwrap();
-                wait_until(&ctl, |c| c.listener.len() >= n).await
+                let ok = wait_until(&ctl, |c| c.listener.len() >= n).await;
+                // the task sits in the callback of notification n: what does the peer see?
+                let held = ctl.lock().unwrap().holding;
+                if ok && held == Some(n) && !ctl.lock().unwrap().peer_view.iter().any(|x| x.starts_with(&format!("p{n}:"))) {
+                    let connected = ctl.lock().unwrap().listener[n - 1] == "lN";
+                    for _ in 0..100 {
+                        let open = ctl.lock().unwrap().peer_open;
+                        if (connected && open >= 1) || (!connected && open == 0) {
+                            break;
+                        }
+                        tokio::time::sleep(Duration::from_millis(1)).await;
+                    }
+                    let mut c = ctl.lock().unwrap();
+                    let v = format!("p{n}:{}:{}", c.peer_open, if c.last_mode.is_empty() { "-" } else { c.last_mode.as_str() });
+                    c.peer_view.push(v);
+                }
+                ok
             }
             "waitc" => {
                 let n: usize = p[1].parse().unwrap();
@@ -307,14 +346,15 @@ async fn run_case(line: &str, case_no: usize) -> String {
     // milliseconds between consecutive notifications (for lower bounds on announced delays only)
     let gaps: Vec<String> = c.stamps.windows(2).map(|w| (w[1] - w[0]).as_millis().to_string()).collect();
     format!(
-        "{}|{}|{}{}|{}|{}|{}",
+        "{}|{}|{}{}|{}|{}|{}|{}",
         c.listener.join(" "),
         comps.iter().map(|(i, s)| format!("c{i}:{s}")).collect::<Vec<_>>().join(" "),
         if done { "done" } else { "live" },
         after,
         c.accepts,
         failed.unwrap_or_default(),
-        gaps.join(" ")
+        gaps.join(" "),
+        c.peer_view.join(" ")
     )
 }
 
